@@ -72,6 +72,7 @@ import (
 	"sort"
 	"strings"
 	"testing"
+	"time"
 
 	"go.sia.tech/core/consensus"
 	"go.sia.tech/core/types"
@@ -1428,6 +1429,38 @@ func checkBlockGen(c BlockCase) error {
 	id := b.ID()
 	if want := gen.RefBlockID(*b); id != want && !noRef {
 		return stats.Failf("C12/block/id-layout", "Block.ID = %v, reference recomputation gives %v\n %s", id, want, short(v))
+	}
+	// the header fields: the ID binds the timestamp as it is transmitted (whole seconds). Any time within the same second
+	// is the same block (it encodes identically), the neighbouring seconds are different blocks, and so are the
+	// neighbouring nonces and another parent
+	{
+		base := b.Timestamp.Truncate(time.Second)
+		for _, ns := range []time.Duration{1, 499_999_999, 500_000_000, 999_999_999} {
+			x := *b
+			x.Timestamp = base.Add(ns)
+			y := *b
+			y.Timestamp = base
+			if x.ID() != y.ID() {
+				return stats.Failf("C12/block/timestamp-subsecond", "a block stamped %v and the same block stamped %v encode identically (whole seconds) but have different IDs", x.Timestamp.UTC(), y.Timestamp.UTC())
+			}
+		}
+		for _, d := range []time.Duration{time.Second, -time.Second} {
+			x := *b
+			x.Timestamp = base.Add(d)
+			if x.ID() == id && b.Timestamp.Equal(base) {
+				return stats.Failf("C12/block/timestamp-unbound", "moving the timestamp by %v leaves the block ID unchanged", d)
+			}
+		}
+		x := *b
+		x.Nonce ^= 1
+		if x.ID() == id {
+			return stats.Failf("C12/block/nonce-unbound", "changing the nonce leaves the block ID unchanged")
+		}
+		x = *b
+		x.ParentID[31] ^= 1
+		if x.ID() == id {
+			return stats.Failf("C12/block/parent-unbound", "changing the parent ID leaves the block ID unchanged")
+		}
 	}
 	fam := newFamily()
 	fam.block(b)
